@@ -60,7 +60,8 @@ Record Cov (st : state) : Prop := mkCov {
   cv_edge : forall a b, In (a, b) (s_edges st) -> In a (s_nodes st) /\ In b (s_nodes st);
   cv_items : forall i, In (node_of i) (s_nodes st) ->
              is_cached st (fst i) = true /\ (has st i \/ In i (s_stack st));
-  cv_refs : rs_ok (List.length (s_stack st)) (s_refstack st) }.
+  cv_refs : rs_ok (List.length (s_stack st)) (s_refstack st);
+  cv_obj : forall c, In (NObj c) (s_nodes st) -> is_cached st c = false }.
 
 Definition StackOK (st : state) : Prop :=
   forall x, In x (s_stack st) -> is_cached st (fst x) = true -> lookup_data (s_data st) x = None.
@@ -226,7 +227,42 @@ Qed.
 Definition pop_src (st : state) (i : item) : node :=
   if is_cached st (fst i) then node_of i else NObj (fst i).
 Definition pop_target (st : state) (i : item) (rest : list item) : option item :=
-  if is_cached st (fst i) then Some i else nearest_cached st rest.
+  if is_cached st (fst i) then Some i else None.
+
+Lemma move_refs_ok d rs : 1 <= d -> rs_ok (S d) rs -> rs_ok d (move_refs d rs).
+Proof.
+  intros Hd. induction rs as [|[d' r] t IH]; simpl; [auto|]. intros (A & B).
+  destruct (Nat.eqb d' d) eqn:E.
+  - apply Nat.eqb_eq in E; subst d'. simpl. split; [lia|].
+    replace (S (d - 1)) with d by lia. now apply IH.
+  - apply Nat.eqb_neq in E. simpl. split; [lia|assumption].
+Qed.
+
+Lemma move_refs_moves d rs r :
+  rs_ok (S d) rs -> In (d, r) rs -> In (d - 1, r) (move_refs d rs).
+Proof.
+  induction rs as [|[d' r'] tl IH]; intros Hok Hin; simpl; [destruct Hin|].
+  simpl in Hok. destruct Hok as (A & B).
+  destruct (Nat.eqb d' d) eqn:E.
+  - apply Nat.eqb_eq in E; subst d'. destruct Hin as [Hin|Hin].
+    + inversion Hin; subst. now left.
+    + right. now apply IH.
+  - apply Nat.eqb_neq in E. exfalso. destruct Hin as [Hin|Hin]; [inversion Hin; congruence|].
+    assert (Hlt : d' < d) by lia.
+    clear - B Hin Hlt. revert d' B Hlt. induction tl as [|[d2 r2] tl IH]; intros d' B Hlt; [destruct Hin|].
+    simpl in B. destruct B as (B1 & B2). destruct Hin as [Hin|Hin].
+    + inversion Hin; subst. lia.
+    + apply (IH Hin d2 B2). lia.
+Qed.
+
+Lemma move_refs_keep_other d rs p : In p rs -> fst p <> d -> In p (move_refs d rs).
+Proof.
+  induction rs as [|[d' r'] tl IH]; intros Hin Hne; simpl; [destruct Hin|].
+  destruct (Nat.eqb d' d) eqn:E.
+  - apply Nat.eqb_eq in E; subst d'. destruct Hin as [<-|Hin]; [simpl in Hne; congruence|].
+    right. now apply IH.
+  - exact Hin.
+Qed.
 
 Lemma pop_frame_graph st i rest :
   s_stack st = i :: rest ->
@@ -244,7 +280,9 @@ Lemma pop_frame_graph st i rest :
   (forall t r, pop_target st i rest = Some t -> rs_ok (S (List.length rest)) (s_refstack st) ->
                In (List.length rest, r) (s_refstack st) -> In (r, t) (s_redges st')) /\
   (rs_ok (S (List.length rest)) (s_refstack st) -> rs_ok (List.length rest) (s_refstack st')) /\
-  s_reent st' = s_reent st.
+  s_reent st' = s_reent st /\
+  (is_cached st (fst i) = false -> rest <> [] -> rs_ok (S (List.length rest)) (s_refstack st) ->
+   forall r, In (List.length rest, r) (s_refstack st) -> In (List.length rest - 1, r) (s_refstack st')).
 Proof.
   intros Es. unfold pop_frame. rewrite Es.
   set (st1 := upd_stack st rest).
@@ -261,7 +299,7 @@ Proof.
     destruct (pop_refs st2 (List.length rest) i (s_refstack st2)) as [st3 rs]. cbn [fst snd] in *.
     cbn [upd_refstack s_edges s_nodes s_redges s_refstack s_reent].
     destruct PO as (P1 & P2 & P3 & P4).
-    split; [|split; [|split; [|split; [|split; [|split]]]]].
+    split; [|split; [|split; [|split; [|split; [|split; [|split]]]]]].
     + intros e. rewrite P1. unfold st2. rewrite g_add_edge_edges. simpl.
       split; [intros [->|H]; [right; eexists; split; reflexivity|now left]
              |intros [H|(jc' & E & ->)]; [now right|left; now inversion E]].
@@ -276,6 +314,7 @@ Proof.
     + intros t r E Hok Hin. inversion E; subst t. now apply PA.
     + intros Hok. now apply PS.
     + exact P4.
+    + intros Hf. discriminate.
   - (* cached, no cached caller *)
     set (st2 := g_add_node st1 (node_of i)).
     pose proof (pop_refs_other st2 (List.length rest) i (s_refstack st2)) as PO.
@@ -286,7 +325,7 @@ Proof.
     destruct (pop_refs st2 (List.length rest) i (s_refstack st2)) as [st3 rs]. cbn [fst snd] in *.
     cbn [upd_refstack s_edges s_nodes s_redges s_refstack s_reent].
     destruct PO as (P1 & P2 & P3 & P4).
-    split; [|split; [|split; [|split; [|split; [|split]]]]].
+    split; [|split; [|split; [|split; [|split; [|split; [|split]]]]]].
     + intros e. rewrite P1. simpl. split; [now left|intros [H|(jc' & E & _)]; [assumption|discriminate]].
     + intros n. rewrite P2. unfold st2. rewrite g_add_node_nodes. simpl.
       split; [intros [->|H]; [right; right; auto|now left]
@@ -297,41 +336,49 @@ Proof.
     + intros t r E Hok Hin. inversion E; subst t. now apply PA.
     + intros Hok. now apply PS.
     + exact P4.
+    + intros Hf. discriminate.
   - (* uncached, cached caller *)
     set (st2 := g_add_edge st1 (NObj (fst i)) (node_of jc)).
-    pose proof (pop_refs_other st2 (List.length rest) jc (s_refstack st2)) as PO.
-    pose proof (pop_refs_redges st2 (List.length rest) jc (s_refstack st2)) as PR.
-    pose proof (pop_refs_keeps st2 (List.length rest) jc (s_refstack st2)) as PK.
-    pose proof (pop_refs_adds st2 (List.length rest) jc (s_refstack st2)) as PA.
-    pose proof (pop_refs_ok st2 (List.length rest) jc (s_refstack st2)) as PS.
-    destruct (pop_refs st2 (List.length rest) jc (s_refstack st2)) as [st3 rs]. cbn [fst snd] in *.
+    assert (Hrest : rest <> []) by (intros ->; simpl in En; discriminate).
+    destruct rest as [|x rest']; [contradiction|].
     cbn [upd_refstack s_edges s_nodes s_redges s_refstack s_reent].
-    destruct PO as (P1 & P2 & P3 & P4).
-    split; [|split; [|split; [|split; [|split; [|split]]]]].
-    + intros e. rewrite P1. unfold st2. rewrite g_add_edge_edges. simpl.
+    split; [|split; [|split; [|split; [|split; [|split; [|split]]]]]].
+    + intros e. unfold st2. rewrite g_add_edge_edges. simpl.
       split; [intros [->|H]; [right; eexists; split; reflexivity|now left]
              |intros [H|(jc' & E & ->)]; [now right|left; now inversion E]].
-    + intros n. rewrite P2. unfold st2. rewrite g_add_edge_nodes. simpl.
+    + intros n. unfold st2. rewrite g_add_edge_nodes. simpl.
       split.
       * intros [->|[->|H]]; [right; left; eexists; split; [reflexivity|now left]
                             |right; left; eexists; split; [reflexivity|now right]|now left].
       * intros [H|[(jc' & E & [->| ->])|(E & _)]]; [auto|auto|inversion E; auto|discriminate].
-    + intros e H. destruct (PR e H) as [H1|(r & -> & H1)]; [now left|].
-      right. exists jc, r. repeat split; assumption.
-    + intros e H. apply PK. exact H.
-    + intros t r E Hok Hin. inversion E; subst t. now apply PA.
-    + intros Hok. now apply PS.
-    + exact P4.
-  - (* uncached, no cached caller *)
-    simpl.
-    split; [|split; [|split; [|split; [|split; [|split]]]]].
-    + intros e. split; [now left|intros [H|(jc' & E & _)]; [assumption|discriminate]].
-    + intros n. split; [now left|intros [H|[(jc' & E & _)|(_ & E & _)]]; [assumption|discriminate|discriminate]].
     + intros e H. now left.
     + intros e H. exact H.
     + intros t r E. discriminate.
-    + intros Hok. now apply drop_refs_ok.
+    + intros Hok. apply move_refs_ok; [simpl; lia|exact Hok].
     + reflexivity.
+    + intros _ _ Hok r Hin. now apply move_refs_moves.
+  - (* uncached, no cached caller *)
+    destruct rest as [|x rest'].
+    + cbn [upd_refstack s_edges s_nodes s_redges s_refstack s_reent].
+      split; [|split; [|split; [|split; [|split; [|split; [|split]]]]]].
+      * intros e. split; [now left|intros [H|(jc' & E & _)]; [assumption|discriminate]].
+      * intros n. split; [now left|intros [H|[(jc' & E & _)|(_ & E & _)]]; [assumption|discriminate|discriminate]].
+      * intros e H. now left.
+      * intros e H. exact H.
+      * intros t r E. discriminate.
+      * intros Hok. now apply drop_refs_ok.
+      * reflexivity.
+      * intros _ Hf. contradiction.
+    + cbn [upd_refstack s_edges s_nodes s_redges s_refstack s_reent].
+      split; [|split; [|split; [|split; [|split; [|split; [|split]]]]]].
+      * intros e. split; [now left|intros [H|(jc' & E & _)]; [assumption|discriminate]].
+      * intros n. split; [now left|intros [H|[(jc' & E & _)|(_ & E & _)]]; [assumption|discriminate|discriminate]].
+      * intros e H. now left.
+      * intros e H. exact H.
+      * intros t r E. discriminate.
+      * intros Hok. apply move_refs_ok; [simpl; lia|exact Hok].
+      * reflexivity.
+      * intros _ _ Hok r Hin. now apply move_refs_moves.
 Qed.
 
 Lemma rollback_frame_graph st i rest ln :
@@ -386,11 +433,11 @@ Proof.
               end).
   assert (H2 : s_reent st2 = s_reent st).
   { unfold st2. destruct (nearest_cached st1 rest); destruct (is_cached st (fst i)); reflexivity. }
-  destruct (if is_cached st (fst i) then Some i else nearest_cached st1 rest) as [t|].
-  - pose proof (pop_refs_other st2 (List.length rest) t (s_refstack st2)) as P.
-    destruct (pop_refs st2 (List.length rest) t (s_refstack st2)) as [st3 rs]. simpl in *.
+  destruct (is_cached st (fst i)).
+  - pose proof (pop_refs_other st2 (List.length rest) i (s_refstack st2)) as P.
+    destruct (pop_refs st2 (List.length rest) i (s_refstack st2)) as [st3 rs]. simpl in *.
     destruct P as (_ & _ & _ & P). congruence.
-  - simpl. exact H2.
+  - destruct rest; simpl; exact H2.
 Qed.
 
 Lemma rollback_frame_reent st ln : s_reent (rollback_frame st ln) = s_reent st.
